@@ -16,6 +16,9 @@ R03.7 a grouping identifier that the SELECT list computes with an expression (ti
 R03.8 the having condition, the aggregate expressions of an aggr clause and computed grouping items (time_agg) are component-level
       expressions of the operand: each is translated inside a `_clause_scope` of the operand (outside it count() means COUNT(*)
       instead of "datapoints with a non-null measure", and a component name resolves as a dataset)
+R03.9 an aggregation used as the operand of another operator: Aggregation.validate and StructureVisitor._build_aggregation_structure are
+      evaluated (E6) for sum / count / min / avg x {no grouping, group by, group except} and must declare the same components and
+      roles (grouping identifiers, measures or int_var, viral attributes)
 Not decided: the values DuckDB computes; null handling inside DuckDB's aggregates.
 """
 from __future__ import annotations
@@ -217,5 +220,33 @@ def run(rep: Report, tier: str) -> None:  # noqa: C901
     rep.rule("R03.8", "the having condition, the aggregate expressions of an aggr clause and computed grouping items are translated inside the clause scope of the operand")
     n_scope = transp.scope_coverage(P, rep, "R03.8", only={"visit_Aggregation", "visit_RegularAggregation_aggr", "_build_agg_group_cols"})
     rep.floor("R03.8 component-level translations", n_scope, 5)
+    # ---- R03.9 structure of an aggregation used as an operand: validator == structure builder (finite model) ----
+    rep.rule("R03.9", "aggregation: components declared by semantic analysis == the transpiler's structure of the intermediate result (grouping identifiers, measures / int_var, viral attributes)")
+    from sa import structmodel as sm
+    from sa.e6 import Unmodelled
+    M = sm.Model(P)
+    n9 = 0
+    fb = P.func(sm.SV + "._build_aggregation_structure")
+    for cls, op in (("Sum", "sum"), ("Count", "count"), ("Min", "min"), ("Avg", "avg")):
+        for gop, g in ((None, None), ("group by", ["A"]), ("group by", ["A", "B"]), ("group except", ["A"]), ("group except", ["A", "B", "C"])):
+            def D() -> sm.MDS:
+                return M.ds("DS_1", ["A", "B", "C"], ["M", "N"], ["V"], ["T"])
+            try:
+                a, b = sm.agg_interpreter(M, cls, D(), gop, g), sm.agg_visitor(M, op, D(), gop, g)
+            except Unmodelled as e:
+                raise AnalysisError(f"R03.9 {op} {gop} {g}: construct outside the evaluator's language: {e}")
+            key = f"structure/{op}/{gop or 'no-grouping'}/{'+'.join(g or [])}"
+            if a[0] != "ok":
+                rep.instance("R03.9", key, nontrivial=False, sample={"validator": a})
+                continue
+            n9 += 1
+            va, vb = sm.comp_summary(a[1]), (sm.comp_summary(b[1]) if b[0] == "ok" and b[1] is not None else None)
+            rep.instance("R03.9", key, sample={"declared": [n for n, _ in va], "structure_visitor": [n for n, _ in vb] if vb else b})
+            if vb is None or dict(va) != dict(vb):
+                rep.add(transp.fnd("R03.9", key, fb, fb.node.lineno,
+                                   f"{op}(DS_1 {gop or ''} {g or ''}) on DS_1(ids A,B,C; measures M,N; attribute T; viral V): semantic analysis declares {[(n, str(r)) for n, r in va]} but the "
+                                   f"transpiler's structure of the intermediate result is {[(n, str(r)) for n, r in vb] if vb else b}: an operator applied to the aggregation in the same statement "
+                                   f"(abs(sum(DS_1 group by A))) drops or mistreats the differing components"))
+    rep.floor("R03.9 aggregation structures compared", n9, 16)
     rep.assumptions = ["DuckDB's aggregates of the same name implement the VTL aggregate operators (null measure values ignored)",
                        "SQLBuilder.having() conjoins conditions (read from sql_builder.py: _having_conditions.append)"]
